@@ -600,6 +600,30 @@ def replay_history(inputs):
             cur = np.where(move, rng.integers(-1, S, size=N), cur)
             states[t] = cur
         inner = np.where(rng.random((T, N)) < float(inputs.get('pin', 0.6)), states, -1)
+        if inputs.get('visits'):
+            # every atom is active only inside its own time window, and the inner-site state is decided per visit (never reached / reached on
+            # arrival / reached after a while): atoms end their activity in an outer shell with a candidate jump pending
+            lo_ = rng.integers(0, max(1, T - 6), size=N)
+            hi_ = lo_ + rng.integers(4, max(5, T // 2), size=N)
+            cur = rng.integers(-1, S, size=N)
+            for t in range(T):
+                act = (t >= lo_) & (t < hi_)
+                cur = np.where(act & (rng.random(N) < 0.5), rng.integers(-1, S, size=N), cur)
+                states[t] = cur
+            inner = np.full_like(states, -1)
+            for a_ in range(N):
+                t = 0
+                while t < T:
+                    u_ = t
+                    while u_ < T and states[u_, a_] == states[t, a_]:
+                        u_ += 1
+                    if states[t, a_] != -1:
+                        r_ = rng.random()
+                        if r_ < 0.3:
+                            inner[t:u_, a_] = states[t, a_]
+                        elif r_ < 0.6:
+                            inner[t + int(rng.integers(0, max(1, u_ - t))):u_, a_] = states[t, a_]
+                    t = u_
     bad = []
     N = states.shape[1]
     dflt = _run(states, states, 0)
@@ -653,7 +677,9 @@ def bounded_histories(tier, seed):
                     st.violation('history', r['detail'], 'verif.props.c04:replay_history', inp)
     for c in range(40 if tier == 'quick' else 1500):
         inp = {'seed': int(rng.integers(1, 10 ** 6)), 'T': int(rng.choice([40, 120, 400])), 'N': 3, 'S': int(rng.choice([2, 3, 5])),
-               'p': float(rng.choice([0.1, 0.35, 0.7])), 'pin': float(rng.choice([0.3, 0.6, 1.0]))}
+               'p': float(rng.choice([0.1, 0.35, 0.7])), 'pin': float(rng.choice([0.3, 0.6, 1.0])), 'visits': c % 2 == 1}
+        if inp['visits']:
+            inp['T'] = 40
         r = st.guard(replay_history, inp)
         if r is None:
             continue
